@@ -74,6 +74,10 @@ def scenario(rng):
         hid.append(("connect", "inv"))
         hid.append(("inv", "MODE inv +i"))
         hid.append(("inv", "JOIN #pub2"))
+        if rng.random() < 0.5:
+            # other user modes come and go, +i stays
+            hid += [("inv", l) for l in rng.choice([["MODE inv +w", "MODE inv -w"], ["MODE inv +w-w"], ["MODE inv +wi", "MODE inv -w"],
+                                                    ["MODE inv -w+w", "MODE inv -w"], ["MODE inv +i", "MODE inv -o-O"]])]
         if rng.random() < 0.4:
             hid.append(("inv", "AWAY :hidden away"))
         if rng.random() < 0.3:
